@@ -315,5 +315,33 @@ def redeclaration_model(ctx, rule):
         ctx.fail(rule, f, f.node, "a Selector re-declared without objects keeps `_objects` Undefined (inherited from the ancestor) but stores names = %r: the labels of the inherited objects are "
                                   "lost on the subclass -- items(), get_range() and objects[label] no longer agree with the objects" % (names,),
                  key="%s::names-materialised-on-redeclaration" % SEL, input="class A: s = Selector(objects={'a': 1, 'b': 2}); class B(A): s = Selector(doc='x') -> B.param.s.names == {} with objects [1, 2]")
-    else:
-        ctx.ok(rule, f, f.node, "a Selector re-declared without objects leaves objects and labels to be inherited together")
+        return
+    # re-declared FROM A LIST (while still unbound: name is None): the new objects come without labels -- the labels of the
+    # ancestor's objects must not be inherited next to them
+    a, b = Obj("object_a"), Obj("object_b")
+    for bound in (False, True):
+        sel2 = Obj("selector_given_a_list", name="s" if bound else None, owner=Obj("Cls") if bound else None)
+
+        def hook2(fn, args, kwargs):
+            if fn == "isinstance" and len(args) == 2:
+                return isinstance(args[0], dict)
+            if fn == "getattr" and len(args) in (2, 3) and args[0] is sel2 and isinstance(args[1], str):
+                return sel2.attrs.get(args[1], args[2] if len(args) == 3 else None)
+            return NotImplemented
+        it2 = Interp(ctx.hier, dyn=SEL, inline=lambda m: False, call_hook=hook2, globals={"Undefined": UNDEF})
+        try:
+            outs = it2.run_all(f, {f.params[0]: sel2, f.params[1]: [a, b]})
+        except Unsupported as e:
+            raise AnalysisError("selector model: absint cannot interpret the objects setter: %s" % e)
+        if len(outs) != 1 or outs[0].imprecise or outs[0].kind != "return":
+            raise AnalysisError("selector model: the objects setter is not interpretable precisely on a list (%s)" % (outs[0].notes[:2] if outs else "no outcome"))
+        ctx.abstract_cases += 1
+        names = sel2.attrs.get("names", UNDEF)
+        if not (isinstance(names, dict) and not names):
+            ctx.fail(rule, f, f.node, "a Selector given a plain list of objects %s stores names = %r, specification an empty mapping of its own: %s" % (
+                "after it was bound to a class" if bound else "while it is being declared (a re-declaration in a subclass)", names,
+                "left Undefined, the slot is filled from the ancestor -- the subclass has its own objects with the ANCESTOR's labels: keys(), items() and objects[label] describe the parent's "
+                "objects, the list view and validation the new ones" if names is UNDEF else "the labels do not describe the new objects"),
+                key="%s::names-inherited-next-to-a-new-list" % SEL, input="class A: s = Selector(objects={'one': 1, 'two': 2}); class B(A): s = Selector(objects=[3, 4]) -> B.param.s.names == {'one': 1, 'two': 2}")
+            return
+    ctx.ok(rule, f, f.node, "a Selector re-declared without objects leaves objects and labels to be inherited together; one given a plain list starts with an empty label mapping of its own")
